@@ -450,6 +450,10 @@ func (c *FnCtx) loadFieldQuiet(st *State, ref, owner, path string, ft types.Type
 	}
 	h := c.heapGet(st, owner+"."+path, s)
 	v := &Val{T: tApp("select", h, ref), S: s, Typ: ft}
+	if at, ok := ft.Underlying().(*types.Array); ok && (s == SStr || isSeq(s)) && !strings.Contains(ref, "!q") {
+		// every value of an array type has the array's length
+		c.addFact(tEq(c.seqLen(v), fmt.Sprint(at.Len())))
+	}
 	if c.V.specs.FieldInv[owner+"."+path] == "nonnil" && s == SInt && !strings.Contains(ref, "!q") {
 		// constructor-established, never reassigned: holds in every heap for every object that exists
 		c.addFact(tOr(tEq(ref, "0"), tNot(tEq(v.T, "0"))))
